@@ -1,6 +1,7 @@
 import Driver.Proto
 import Driver.C21
 import Driver.C24
+import Driver.C25
 /-
   Model driver: reads one request per line on stdin (`<suite> <op> <args…>`), answers one
   line per request on stdout.  Imports models only (no Mathlib, no proofs).
@@ -11,6 +12,7 @@ def dispatch (fs : List String) : String :=
   match fs with
   | "c21" :: rest => Driver.c21 rest
   | "c24" :: rest => Driver.c24 rest
+  | "c25" :: rest => Driver.c25 rest
   | _ => "bad-op"
 
 partial def loop (h : IO.FS.Stream) (out : IO.FS.Stream) : IO Unit := do
